@@ -25,6 +25,7 @@ import Hs.Model.NsProtos
     protos G <npd> {<name> <0|1 children usable> <nc> PD* <nf> f..}* <np> PD*
                                         per parent the set of prototypes, each `{key:token,..}` with keys sorted,
                                         the set sorted and joined by |; parents joined by ;
+    core G                              the sixteen fields of `core_type_defs`: the def's name or `-`, joined by ,
 -/
 namespace Hs.Drv.C13
 open Hs Hs.Vx Hs.Ns
@@ -292,6 +293,15 @@ def protosReq (ts : List String) : String :=
           let ps := (ps.mergeSort (fun a b => decide (a ≤ b))).eraseDups
           "|".intercalate ps))
 
+def coreReq (ts : List String) : String :=
+  match pRows ts with
+  | none => "bad-request"
+  | some (rows, _) =>
+    "ok " ++ ",".intercalate ((NsA.coreTypeDefs (make rows).defs).map (fun o =>
+      match o with
+      | some n => H n
+      | none => "-"))
+
 /-- requests `C13 <cmd> ...` (tokens after the property id) -/
 def handle (ts : List String) : String :=
   match ts with
@@ -302,6 +312,7 @@ def handle (ts : List String) : String :=
     else if cmd = "rel" then relReq rest
     else if cmd = "ent" then entReq rest
     else if cmd = "protos" then protosReq rest
+    else if cmd = "core" then coreReq rest
     else "bad-request"
   | [] => "bad-request"
 
